@@ -85,7 +85,12 @@ MIN_COUNTERS = {
               "consistency_jacobian_vs_value_checked": 1900, "off_equilibrium_oracle_evaluations": 1800,
               "space_oracle_evaluations": 1500, "mask_roundtrip_checked": 1500, "idf_missing_coupling_refused": 400,
               "mdf_idf_points_compared": 1350, "mdf_disciplinaryopt_points_compared": 450,
-              "optimum_oracle_evaluations": 150, "optimum_MDF": 45, "optimum_IDF": 85, "optimum_DisciplinaryOpt": 12},
+              "optimum_oracle_evaluations": 150, "optimum_MDF": 45, "optimum_IDF": 85, "optimum_DisciplinaryOpt": 12,
+              "idf_started_at_equilibrium": 300, "idf_started_at_equilibrium_feed_forward": 75,
+              "idf_started_at_equilibrium_single_scc": 170, "idf_started_at_equilibrium_multi_scc": 35,
+              "idf_started_at_equilibrium_from_consistent_targets": 90,
+              "idf_started_at_equilibrium_from_inconsistent_targets": 220,
+              "idf_start_point_oracle_evaluations": 1000, "idf_parallel_cases": 110},
     "thorough": {"value_oracle_evaluations": 139000, "value_MDF": 41000, "value_IDF": 82000,
                  "value_DisciplinaryOpt": 14500, "derivative_oracle_evaluations": 139000, "derivative_MDF": 41000,
                  "derivative_IDF": 82000, "derivative_DisciplinaryOpt": 14500, "consistency_oracle_evaluations": 38000,
@@ -269,7 +274,25 @@ def gen_pointwise_case(rng, force=None):
     order = list(range(len(groups)))
     if rng.random() < 0.5:
         order = [int(i) for i in rng.permutation(len(groups))]
-    return {"kind": "pointwise", "family": family, "spec": spec, "groups": groups, "order": order, "space": space,
+    # options of the formulations that must not change the problem
+    idf_options = {"start_at_equilibrium": bool(force.get("start_at_equilibrium", rng.random() < 0.7)),
+                   "sae_normalize": bool(rng.random() < 0.5),
+                   "coupling_start": force.get("coupling_start") or ("consistent" if rng.random() < 0.3 else "inconsistent"),
+                   "parallel": bool(force.get("parallel", rng.random() < 0.25)),
+                   "parallel_normalize": bool(rng.random() < 0.5)}
+    mda_options = {"use_lu_fact": bool(rng.random() < 0.3), "warm_start": bool(rng.random() < 0.3)}
+    # the coupling bounds must contain y*(x0) (IDF writes it into the design space when started at equilibrium);
+    # "consistent": the user already gives y*(x0) as initial coupling values
+    fixed = {k: np.array(v, dtype=float) for k, v in space["fixed"].items()}
+    sol0 = system.solve(dict({n: np.array(space["current"][n], dtype=float) for n in design}, **fixed))
+    for nm in system.read_couplings:
+        lb, ub = (np.array(b, dtype=float) for b in space["bounds"][nm])
+        lb = np.minimum(lb, np.floor(sol0[nm] - 1.0))
+        ub = np.maximum(ub, np.ceil(sol0[nm] + 1.0))
+        space["bounds"][nm] = [lb.tolist(), ub.tolist()]
+        if idf_options["coupling_start"] == "consistent":
+            space["current"][nm] = sol0[nm].tolist()
+    return {"kind": "pointwise", "idf_options": idf_options, "mda_options": mda_options, "family": family, "spec": spec, "groups": groups, "order": order, "space": space,
             "objective": objective, "constraints": constraints, "mda": gen_mda(rng, grouping, force),
             "points": points, "perturb": perturb, "sparse": bool(force.get("sparse", rng.random() < 0.15)),
             "degenerate": bool(degenerate)}
@@ -357,7 +380,8 @@ def case_signature(case):
             sp["with_couplings_for_mdf"], len(case["objective"]),
             tuple((len(c["names"]), c["names"][0][0], c["type"], c["positive"], c["value"] == 0.0)
                   for c in case["constraints"]),
-            tuple(sorted(system.sizes[c] for c in system.read_couplings)), case["degenerate"])
+            tuple(sorted(system.sizes[c] for c in system.read_couplings)), case["degenerate"],
+            tuple(sorted(case.get("idf_options", {}).items())), tuple(sorted(case.get("mda_options", {}).items())))
 
 
 # =========================================================================== building the real objects
@@ -415,7 +439,7 @@ class Ctx:
         return -1.0 if (f["role"] == "constraint" and f["positive"]) else 1.0
 
 
-def formulation_args(ctx, which, normalize=None, space_names=None, start_at_equilibrium=False):
+def formulation_args(ctx, which, normalize=None, space_names=None, start_at_equilibrium=False, n_processes=1):
     """(class name, fresh disciplines, objective, fresh design space, settings) of one formulation of the case."""
     case = ctx.case
     sp = case["space"]
@@ -429,6 +453,7 @@ def formulation_args(ctx, which, normalize=None, space_names=None, start_at_equi
     if which == "MDF":
         mda = case["mda"]
         settings = dict(MDA_SETTINGS)
+        settings.update(case.get("mda_options", {}))
         if mda["main"] == "MDAChain":
             settings.update(inner_mda_name=mda["inner"], chain_linearize=mda["chain_linearize"],
                             inner_mda_settings={"linear_solver_tolerance": 1e-14})
@@ -436,7 +461,10 @@ def formulation_args(ctx, which, normalize=None, space_names=None, start_at_equi
     if which == "IDF":
         kw = {"normalize_constraints": bool(normalize)}
         if start_at_equilibrium:
-            kw.update(start_at_equilibrium=True, mda_chain_settings_for_start_at_equilibrium=dict(MDA_SETTINGS))
+            eq = dict(MDA_SETTINGS, inner_mda_name=case["mda"]["inner"] or case["mda"]["main"])
+            kw.update(start_at_equilibrium=True, mda_chain_settings_for_start_at_equilibrium=eq)
+        if n_processes > 1:
+            kw.update(n_processes=int(n_processes), use_threading=True)
         return which, ctx.disciplines(), objective, ds, kw
     return which, ctx.disciplines(order=ctx.grouping.topological_order()), objective, ds, {}
 
@@ -524,15 +552,22 @@ def run_pointwise_case(case, rep):
 
     # ---------------------------------------------------------------- construction
     forms = {}
-    wanted = [("MDF", None), ("IDF", True), ("IDF", False)]
+    opts = case.get("idf_options", {})
+    norm_of = {"IDF[norm]": True, "IDF[raw]": False, "IDF[sae]": bool(opts.get("sae_normalize", True)),
+               "IDF[par]": bool(opts.get("parallel_normalize", True))}
+    wanted = [("MDF", "MDF", {}), ("IDF[norm]", "IDF", {"normalize": True}), ("IDF[raw]", "IDF", {"normalize": False})]
+    if opts.get("start_at_equilibrium", False):
+        wanted.append(("IDF[sae]", "IDF", {"normalize": norm_of["IDF[sae]"], "start_at_equilibrium": True}))
+    if opts.get("parallel", False):
+        wanted.append(("IDF[par]", "IDF", {"normalize": norm_of["IDF[par]"], "n_processes": 2}))
     if not grouping.has_strong_coupling():
-        wanted.append(("DisciplinaryOpt", None))
-    for which, norm in wanted:
-        key = which if norm is None else f"IDF[{'norm' if norm else 'raw'}]"
+        wanted.append(("DisciplinaryOpt", "DisciplinaryOpt", {}))
+    for key, which, kw in wanted:
         try:
-            forms[key] = build_formulation(ctx, which, normalize=norm)
+            forms[key] = build_formulation(ctx, which, **kw)
         except Exception as e:
-            rep.violation(f"C17:{which}:construction:exception:{type(e).__name__}:{feat}", "construction", case,
+            opt_tag = {"IDF[sae]": "start_at_equilibrium:", "IDF[par]": "n_processes=2:"}.get(key, "")
+            rep.violation(f"C17:{which}:construction:{opt_tag}exception:{type(e).__name__}:{feat}", "construction", case,
                           observed=_exc(e), expected="a formulation for a valid system")
     if not forms:
         return
@@ -606,6 +641,12 @@ def run_pointwise_case(case, rep):
                               observed=f"IDF built without {drop} in the design space", expected="ValueError")
             else:
                 rep.observe("IDF accepts a space without a weak coupling", {"dropped": drop})
+
+    # ---------------------------------------------------------------- clause: IDF started at equilibrium
+    if "IDF[sae]" in forms:
+        check_start_at_equilibrium(case, ctx, forms["IDF[sae]"], rep, sizes)
+    if "IDF[par]" in forms:
+        rep.count("idf_parallel_cases")
 
     # ---------------------------------------------------------------- per design point
     jac_broken = set()
@@ -765,7 +806,7 @@ def run_pointwise_case(case, rep):
                 x = vec(names, data)
                 sl, ntot = col_slices(names, sizes)
                 funcs, consistency = functions_of(form, n_builtin)
-                normalized = key == "IDF[norm]"
+                normalized = norm_of[key]
                 # functions off y*: plain discipline outputs at (x, y)
                 for f, g in zip(ctx.functions, funcs):
                     try:
@@ -823,6 +864,66 @@ def run_pointwise_case(case, rep):
         rep.count("cases_where_no_function_depends_on_a_coupling")
     if shared_strong:
         rep.count("cases_with_a_strong_coupling_read_by_another_strong_group")
+
+
+def graph_class(ctx):
+    if not ctx.couplings:
+        return "uncoupled"
+    if not ctx.grouping.has_strong_coupling():
+        return "feed_forward"
+    return "single_scc" if ctx.grouping.one_scc() else "multi_scc"
+
+
+def check_start_at_equilibrium(case, ctx, built, rep, sizes):
+    """IDF(start_at_equilibrium=True): the coupling targets of the design space are y*(x0), the design variables are
+    untouched, the consistency constraints vanish and the functions equal the closed form (hence MDF's) there."""
+    form, n_builtin = built
+    system = ctx.system
+    sp = case["space"]
+    klass = graph_class(ctx)
+    start = case.get("idf_options", {}).get("coupling_start", "inconsistent")
+    x0 = {n: sp["current"][n] for n in ctx.design}
+    sol0 = system.solve(ctx.inputs(x0))
+    if system.residual(sol0) > 1e-12:
+        rep.count("reference_not_converged")
+        return
+    rep.count("idf_started_at_equilibrium")
+    rep.count(f"idf_started_at_equilibrium_{klass}")
+    rep.count(f"idf_started_at_equilibrium_from_{start}_targets")
+    cur = form.design_space.get_current_value(as_dict=True)
+    bad = {}
+    for c in ctx.couplings:
+        if c not in cur or np.asarray(cur[c]).shape != sol0[c].shape or \
+                float(np.max(np.abs(cur[c] - sol0[c]))) > 1e-8 * max(1.0, float(np.max(np.abs(sol0[c])))):
+            bad[c] = {"got": cur.get(c), "given": sp["current"][c], "expected": sol0[c]}
+    if bad:
+        rep.violation(f"C17:IDF:start_at_equilibrium:coupling-targets-not-at-the-multidisciplinary-solution:{klass}",
+                      "consistency", case, observed=bad,
+                      expected="current value of every coupling target == y*(x0) within 1e-8 relative")
+        return
+    moved = [v for v in ctx.design if not np.array_equal(np.asarray(cur[v]), np.asarray(sp["current"][v]))]
+    if moved:
+        rep.violation(f"C17:IDF:start_at_equilibrium:design-variables-changed:{klass}", "space", case,
+                      observed={v: cur[v] for v in moved}, expected={v: sp["current"][v] for v in moved})
+        return
+    x = form.design_space.get_current_value()
+    funcs, consistency = functions_of(form, n_builtin)
+    try:
+        worst = max([float(np.max(np.abs(np.atleast_1d(c.evaluate(x.copy()))))) for c in consistency], default=0.0)
+        vals = [np.atleast_1d(g.evaluate(x.copy())) for g in funcs]
+    except Exception as e:
+        rep.violation(f"C17:IDF:start_at_equilibrium:exception:{type(e).__name__}:{klass}", "value", case, observed=_exc(e))
+        return
+    rep.count("idf_start_point_oracle_evaluations", 1 + len(funcs))
+    if worst > 1e-8:
+        rep.violation(f"C17:IDF:start_at_equilibrium:consistency-non-zero-at-the-start-point:{klass}", "consistency", case,
+                      observed=worst, expected="|C| <= 1e-8 at the design-space current value")
+    for f, v in zip(ctx.functions, vals):
+        ref_v = ctx.ref_function(f, sol0)
+        if v.shape != ref_v.shape or float(np.max(np.abs(v - ref_v))) > VALUE_TOL * max(1.0, float(np.max(np.abs(ref_v)))):
+            rep.violation(f"C17:IDF:start_at_equilibrium:value-at-the-start-point-differs-from-closed-form:{klass}", "value",
+                          case, observed={"function": f["names"], "value": v}, expected={"value": ref_v})
+            break
 
 
 def _mda_converged(form):
@@ -1003,6 +1104,16 @@ def directed_cases():
     out.append(gen_pointwise_case(mk(160), {"family": "std", "graph": "tail_head", "n": 4, "self_coupled": False,
                                             "degenerate": True, "n_constraints": 0, "objective_of": 0,
                                             "merge": False, "mda": chain_j}))
+    # 6. IDF(start_at_equilibrium=True) on feed-forward, single-SCC and multi-SCC systems, from inconsistent and
+    #    from consistent initial coupling targets; IDF with n_processes=2 (threads)
+    k = 0
+    for fam, extra in (("dag", {"n": 3}), ("dag", {"n": 2}), ("std", {"graph": "ring", "n": 3}),
+                       ("std", {"graph": "two_scc", "n": 4}), ("std", {"graph": "tail_head", "n": 4})):
+        for start in ("inconsistent", "consistent"):
+            out.append(gen_pointwise_case(mk(170 + k), dict(extra, family=fam, self_coupled=False, degenerate=False,
+                                                            merge=False, start_at_equilibrium=True, coupling_start=start,
+                                                            parallel=bool(k % 2), mda=chain_j)))
+            k += 1
     return out
 
 
